@@ -9,7 +9,7 @@ CONSTANTS
   Kinds = {"res", "one"}
   Limits = {3}
   Profiles = {"car"}
-  Origins = {0, 1}
+  Origins = {0}
   Modes = {"all"}
   OriginTest = "whole-way"
   Filter = "closed"
